@@ -470,6 +470,111 @@ class ContainsJobId(PContract):
         ex.oblige(self.oname("frame:reads_only"), ctx.fs.eq(ctx.fs0))
 
 
+def stub_contains_job_id(interp, b):
+    """callee view of Project._contains_job_id (ContainsJobId.post)"""
+    i = b["job_id"]
+    if not isinstance(i, SId):
+        raise Unsupported("_contains_job_id argument")
+    return SBool(interp.ctx.fs.dirs[JD.mk(b["self"].p, i.e)])
+
+
+class OpenJobById(PContract):
+    """Project.open_job(id=...) for an id the cache does not know: a full id, or an abbreviated one resolved against the job directories"""
+    target = f"{PRJ}.Project.open_job"
+    properties = ("C02",)
+    inline = GETTERS + (f"{JOB}.Job.__init__", f"{JOB}.Job._initialize_lazy_properties")
+    faults = False
+    assumptions = ("abbreviated ids: only `full_id.startswith(prefix)` is observed (HASPFX), the prefix is shorter than a full id",)
+
+    def cases(self):
+        return [{"by": "full-id-not-cached"}, {"by": "abbreviated-id"}]
+
+    def make_ctx(self, case):
+        ctx = super().make_ctx(case)
+        ctx.callee_contracts[f"{PRJ}.Project._find_job_ids"] = stub_find_job_ids_all
+        ctx.callee_contracts[f"{PRJ}.Project._contains_job_id"] = stub_contains_job_id
+        return ctx
+
+    def setup(self, interp, case):
+        from .jobfs import SIdPrefix
+        ex, ctx = interp.ex, interp.ctx
+        proj = self.fresh_project(interp)
+        ctx.overrides[(JOB, "RLock")] = NativeStub(lambda: None, "RLock")
+        i = z3.Const("id_arg", Id)
+        if case["by"] == "full-id-not-cached":
+            ex.assume(z3.Not(proj.fields["_sp_cache"].dom[i]))
+            arg = SId(i)
+        else:
+            arg = SIdPrefix()
+            ex.assume(z3.And(arg.n >= 1, arg.n < 32))
+        return [proj], {"id": arg}, {"i": i, "proj": proj, "p": proj.p}
+
+    def post(self, interp, case, pre, outcome):
+        from .jobfs import HASPFX
+        ex, ctx = interp.ex, interp.ctx
+        fs0, p, proj = ctx.fs0, pre["p"], pre["proj"]
+        ex.oblige(self.oname("frame:open_job_writes_nothing_to_disk"), ctx.fs.eq(fs0))
+        P = lambda x: z3.And(fs0.dirs[JD.mk(p, x)], HASPFX(x))
+        x, y = z3.Consts("ox oy", Id)
+        none = z3.ForAll([x], z3.Not(P(x)))
+        two = z3.Exists([x, y], z3.And(x != y, P(x), P(y)))
+        if outcome[0] == "return":
+            j = outcome[1]
+            ok = isinstance(j, Obj) and j.cls.name == "Job" and isinstance(j.fields.get("_id"), SId) and j.fields.get("_project") is proj
+            ex.oblige(self.oname("ensures:returns_a_job_handle_of_this_project"), z3.BoolVal(ok))
+            if not ok:
+                return
+            m = j.fields["_id"].e
+            if case["by"] == "full-id-not-cached":
+                ex.oblige(self.oname("ensures:a_full_id_is_opened_iff_its_job_directory_exists"), z3.And(m == pre["i"], fs0.dirs[JD.mk(p, m)]))
+            else:
+                ex.oblige(self.oname("ensures:an_abbreviated_id_resolves_to_the_only_job_directory_it_abbreviates"),
+                          z3.And(P(m), z3.ForAll([x], z3.Implies(P(x), x == m))))
+        else:
+            e = outcome[1]
+            if case["by"] == "full-id-not-cached":
+                ex.oblige(self.oname("raises:KeyError_iff_no_such_job_directory"), z3.And(z3.BoolVal(isinstance(e, KeyError)), z3.Not(fs0.dirs[JD.mk(p, pre["i"])])), note=repr(e))
+            elif isinstance(e, KeyError):
+                ex.oblige(self.oname("raises:KeyError_iff_no_job_directory_has_the_prefix"), none)
+            elif isinstance(e, LookupError):
+                ex.oblige(self.oname("raises:LookupError_iff_the_prefix_is_ambiguous_among_the_job_directories"), two)
+            else:
+                ex.oblige(self.oname("raises:only_KeyError_or_LookupError"), False, note=repr(e))
+
+
+    def witness(self, case, model, ob):
+        if case.get("by") != "abbreviated-id":
+            return None
+        return {"script": WITNESS_PREFIX, "input": "40 jobs, fresh Project with some state points already in the in-memory cache; every prefix of every id"}
+
+
+WITNESS_PREFIX = r'''
+import os, sys, tempfile
+sys.path.insert(0, os.environ.get("PYVC_REPO", "/repo"))
+import signac
+with tempfile.TemporaryDirectory() as d:
+    p = signac.init_project(d)
+    ids = sorted(p.open_job({"a": i}).init().id for i in range(40))
+    for warm in (0, 1, 7):
+        q = signac.Project(d)
+        for i in ids[:warm] + ids[20:20 + warm]:
+            q.open_job(id=i).statepoint()          # these ids are now in the in-memory cache
+        for full in ids:
+            for n in range(1, 32):
+                pre = full[:n]
+                m = [i for i in ids if i.startswith(pre)]
+                try:
+                    got = q.open_job(id=pre).id
+                except KeyError:
+                    got = "KeyError"
+                except LookupError:
+                    got = "LookupError"
+                want = m[0] if len(m) == 1 else ("LookupError" if m else "KeyError")
+                assert got == want, (pre, got, want, warm)
+print("ok")
+'''
+
+
 class ProjContains(PContract):
     target = f"{PRJ}.Project.__contains__"
     properties = ("C02", "C03", "C07")
@@ -1265,4 +1370,4 @@ class DetectSchema(PContract):
                   z3.BoolVal(g.get("exclude_const") is case["exclude_const"] and g.get("include_doc") is False))
 
 
-CONTRACTS += [DetectSchema()]
+CONTRACTS += [DetectSchema(), OpenJobById()]
